@@ -117,7 +117,7 @@ PARTS = [
     Part("interruption-sweep", "enum", check, cases=sweep_cases, exhaustive=True),
     Part("idle-expiry-interruptions", "enum", check, cases=idle_sweep_cases, exhaustive=True),
     Part("random-histories", "hyp", check, strategy=history_strategy,
-         examples={"quick": 300, "thorough": 2500}, shards={"quick": 4, "thorough": 16}),
+         examples={"quick": 300, "thorough": 12000}, shards={"quick": 4, "thorough": 16}),
 ]
 
 
